@@ -119,7 +119,8 @@ class OptimizeResult(dict):
             bads.optim_state["uncertainty_handling_level"] > 0
             and bads.options["noise_final_samples"] > 0
         ):
-            self["yval_vec"] = bads.optim_state["yval_vec"].copy()
+            yval_vec = bads.optim_state.get("yval_vec")
+            self["yval_vec"] = None if yval_vec is None else yval_vec.copy()
         else:
             self["yval_vec"] = None
 
@@ -127,7 +128,7 @@ class OptimizeResult(dict):
             bads.options["specify_target_noise"]
             and bads.options["noise_final_samples"] > 0
         ):
-            self["ysd_vec"] = bads.optim_state["ysd_vec"]
+            self["ysd_vec"] = bads.optim_state.get("ysd_vec")
         else:
             self["ysd_vec"] = None
 
